@@ -116,11 +116,19 @@ void h_expand_defined_function() {
   __CPROVER_assume(vin_q <= vin_p && vin_p <= vin_expr._n);          // as called by expand_manifests: p just behind the word `defined` that starts at q
   g_defined_answer = nondet_bool();
   std::string before = vin_expr.substr(0, vin_q);
+  // where the operand of `defined` ends (ISO C 6.10.1: `defined identifier` or `defined ( identifier )`)
+  size_t e = vin_p; bool paren = false;
+  while (e < vin_expr._n && isspace((unsigned char)vin_expr._d[e])) e++;
+  if (e < vin_expr._n && vin_expr._d[e] == '(') { paren = true; e++; while (e < vin_expr._n && isspace((unsigned char)vin_expr._d[e])) e++; }
+  while (e < vin_expr._n && (isalnum((unsigned char)vin_expr._d[e]) || vin_expr._d[e] == '_')) e++;
+  if (paren) { size_t f = e; while (f < vin_expr._n && isspace((unsigned char)vin_expr._d[f])) f++; if (f < vin_expr._n && vin_expr._d[f] == ')') e = f + 1; else e = f; }
+  std::string rest = vin_expr.substr(e);
   CPPPreprocessor *pp = make_pp();
   size_t p = vin_p;
   pp->expand_defined_function(vin_expr, vin_q, p);
   __CPROVER_assume(!vin_expr._trunc);       // a result longer than the model's capacity is outside the bound
   OBL(p == vin_q + 1 && vin_expr._n >= vin_q + 1 && vin_expr._d[vin_q] == (g_defined_answer ? '1' : '0'), "C09.expand_defined_function: defined X is replaced by 1 or 0 according to whether X is defined");
   OBL(vin_expr.substr(0, vin_q) == before, "C09.expand_defined_function: the text in front of the operator is kept");
+  OBL(vin_expr.substr(vin_q + 1) == rest, "C09.expand_defined_function: exactly the operand (identifier, or parenthesised identifier) is consumed; the rest of the expression, including a closing parenthesis that belongs to an enclosing group, is kept");
   VU_REACHED();
 }
